@@ -23,6 +23,8 @@ evaluated on the implementation's answer):
                   mutated in place (theorem shared_inv_partial / shared_mutation_witness; known finding)
   reject_unchanged  a raising call changed the object
   auto_total      the auto-correcting setter raised on a wide interval
+  auto_total_precision  it raised on an interval at least 1e-9 wide that is not wide: constraint precision too large
+                  for the width (full statement of `auto_total_partial`; known finding)
   auto_nearest    the corrected value is further than one step from the nearest accepted value
   read_render     parsing a rendered description does not give the interval back
   read_documented a description the model reads without raising (documented syntax) is refused or read to another interval
@@ -218,7 +220,10 @@ def autoExtra (p : Param α) (v : α) : Bool → Option (Param α) → String :=
   match p.constraint with
   | none => if raised then "FAIL:auto_total" else "ok"
   | some c =>
-    if raised then (if c.wide then "FAIL:auto_total" else "ok")
+    -- raised on an interval inside the property's quantifier (>= 1e-9 wide) that is not `wide`: the constraint's
+    -- precision is too large for the width (`auto_precision_witness`, known finding); narrower intervals are
+    -- outside the quantifier (`auto_narrow_witness`)
+    if raised then (if c.wide then "FAIL:auto_total" else if c.widthOk then "FAIL:auto_total_precision" else "ok")
     else match q with
       | some p' => if !c.wide || p.nearestOk (Scalar.ofInt (Codec.slack α)) v p'.value then "ok" else "FAIL:auto_nearest"
       | none => "FAIL:parse"
